@@ -67,6 +67,61 @@ theorem matchStraggler_spec (look : Nat → Msg) (hist : List Entry) (s : Msg) :
       have := hB e (List.mem_of_getElem? he)
       simp [hp] at this; exact this
 
+/-- **anti-message matching** (`match_anti_msg`): when the cancelled message `m` is in the history, the returned index `k` is
+the start of `m`'s own group `[sent* past m]`: the entries from `k` up to the (last) past entry of `m` are all `sent` markers,
+and the entry before `k` (if any) is a processed message - so the rollback undoes `m`, everything after it, and the sends of
+`m` itself, and nothing before. -/
+theorem matchAnti_spec (hist : List Entry) (m k : Nat) (h : matchAnti hist m = some k) :
+    ∃ i, hist[i]? = some (.past m) ∧ k ≤ i ∧
+      (∀ j e, i < j → hist[j]? = some e → e ≠ .past m) ∧
+      (∀ j e, k ≤ j → j < i → hist[j]? = some e → e.isPast = false) ∧
+      (0 < k → ∃ e, hist[k - 1]? = some e ∧ e.isPast = true) := by
+  unfold matchAnti findPast at h
+  simp only at h
+  rcases scanBack_rev_spec (fun e => e == Entry.past m) hist with ⟨h0, _⟩ | ⟨A, x, B, hl, hB, hx, hk⟩
+  · simp [h0] at h
+  · simp only [hk, Nat.add_one_ne_zero, if_false, Nat.add_sub_cancel] at h
+    have hxm : x = .past m := by simpa using hx
+    subst hxm
+    have htake : hist.take A.length = A := by rw [hl]; simp
+    rw [htake] at h
+    simp only [Option.some.injEq] at h
+    refine ⟨A.length, by rw [hl]; simp, ?_, ?_, ?_, ?_⟩
+    · -- k ≤ i
+      rcases scanBack_rev_spec Entry.isPast A with ⟨h0, _⟩ | ⟨A', y, B', hA, _, _, hk'⟩
+      · omega
+      · rw [hk'] at h; rw [hA]; simp; omega
+    · intro j e hj he hne
+      subst hne
+      rw [hl] at he
+      have : (A ++ Entry.past m :: B)[j]? = B[j - A.length - 1]? := by
+        rw [List.getElem?_append_right (by omega)]
+        obtain ⟨d, hd⟩ : ∃ d, j - A.length = d + 1 := ⟨j - A.length - 1, by omega⟩
+        rw [hd, List.getElem?_cons_succ]; congr 1
+      rw [this] at he
+      have := hB _ (List.mem_of_getElem? he)
+      simp at this
+    · intro j e hkj hji he
+      rw [hl, List.getElem?_append_left hji] at he
+      rcases scanBack_rev_spec Entry.isPast A with ⟨_, hall⟩ | ⟨A', y, B', hA, hB', _, hk'⟩
+      · exact hall e (List.mem_of_getElem? he)
+      · rw [hk'] at h
+        rw [hA] at he
+        have hjA : A'.length < j := by omega
+        have : (A' ++ y :: B')[j]? = B'[j - A'.length - 1]? := by
+          rw [List.getElem?_append_right (by omega)]
+          obtain ⟨d, hd⟩ : ∃ d, j - A'.length = d + 1 := ⟨j - A'.length - 1, by omega⟩
+          rw [hd, List.getElem?_cons_succ]; congr 1
+        rw [this] at he
+        exact hB' e (List.mem_of_getElem? he)
+    · intro hk0
+      rcases scanBack_rev_spec Entry.isPast A with ⟨h0, _⟩ | ⟨A', y, B', hA, _, hy, hk'⟩
+      · omega
+      · rw [hk'] at h
+        refine ⟨y, ?_, hy⟩
+        rw [← h, Nat.add_sub_cancel, hl, hA]
+        simp
+
 /-- re-export: the state of an LP is always the deterministic execution of its not-undone events -/
 theorem lp_state_is_fold {h : σ → Event → σ × List Event} {ev : Nat → Event} {init : σ}
     (ops : List C05LP.Op) (lp lp' : LPState σ) (hE : C05LP.Exact h ev init lp)
